@@ -912,6 +912,9 @@ def run(prog, rep, tier):
     rep.rule('VALUE-dead', 'no result of a call is bound to a local that is never read (reaching '
              'definitions)')
     check_dead_computations(prog, rep, ['tenpy/networks/site.py'])
+    from ..flow import check_undefined_attrs
+    rep.rule('ATTR-defined', 'every self.X read names an attribute bound somewhere in the class family')
+    check_undefined_attrs(prog, rep, ['tenpy/networks/site.py'])
     return rep.finish(
         level='other',
         explanation='Operator-registry coupling, Jordan-Wigner routing, parameter-family '
